@@ -889,6 +889,9 @@ def _bin(x):
         if lo < 0:
             if not explore.decide(_t(as_cond(x >= 0))):
                 raise Inconclusive("bin() of a negative symbolic int")
+        if lo >= 0:
+            from sxl.sstr import LazyBin
+            return LazyBin(x)
         n = x.bit_length()            # forks on the bit length
         if n == 0:
             return "0b0"
